@@ -67,4 +67,49 @@ pub(crate) mod verif_kani {
         let bit = (buf[1 + i / 8] >> (i % 8)) & 1 == 1;
         if i < 17 { assert!(bit == vals[i]); } else { assert!(!bit); }
     }
+    /// bounded (quick tier): the reply to a bit read of exactly 17 points (three data bytes, one partial), every handler answer pattern,
+    /// any start address that keeps the range valid: byte count, then the handler's values packed LSB-first, padding bits zero
+    #[kani::proof]
+    #[kani::unwind(19)]
+    pub(crate) fn k_bit_writer_17() {
+        let vals: [bool; 17] = kani::any();
+        let start: u16 = kani::any();
+        kani::assume(start as u32 + 17 <= 65536);
+        let range = crate::types::AddressRange::try_from(start, 17).unwrap().of_read_bits().unwrap();
+        let writer = crate::server::response::BitWriter::new(range, |a: u16| Ok(vals[(a - start) as usize]));
+        let mut buf = [0u8; 8];
+        let pos = {
+            let mut cursor = WriteCursor::new(&mut buf);
+            writer.serialize(&mut cursor).unwrap();
+            cursor.position()
+        };
+        assert!(pos == 4);
+        assert!(buf[0] == 3);
+        let i: usize = kani::any();
+        kani::assume(i < 24);
+        let bit = (buf[1 + i / 8] >> (i % 8)) & 1 == 1;
+        if i < 17 { assert!(bit == vals[i]); } else { assert!(!bit); }
+    }
+
+    /// bounded (quick tier): the reply to a register read of exactly 3 registers: byte count, then the handler's values big-endian
+    #[kani::proof]
+    #[kani::unwind(5)]
+    pub(crate) fn k_register_writer_3() {
+        let vals: [u16; 3] = kani::any();
+        let start: u16 = kani::any();
+        kani::assume(start as u32 + 3 <= 65536);
+        let range = crate::types::AddressRange::try_from(start, 3).unwrap().of_read_registers().unwrap();
+        let writer = crate::server::response::RegisterWriter::new(range, |a: u16| Ok(vals[(a - start) as usize]));
+        let mut buf = [0u8; 8];
+        let pos = {
+            let mut cursor = WriteCursor::new(&mut buf);
+            writer.serialize(&mut cursor).unwrap();
+            cursor.position()
+        };
+        assert!(pos == 7);
+        assert!(buf[0] == 6);
+        let i: usize = kani::any();
+        kani::assume(i < 3);
+        assert!(((buf[1 + 2 * i] as u16) << 8 | buf[2 + 2 * i] as u16) == vals[i]);
+    }
 }
